@@ -111,6 +111,7 @@ type Step struct {
 	Csv   *CsvConf  `json:"csv,omitempty"`
 	Fault *FaultPos `json:"fault,omitempty"`
 	Sql   *SqlConf  `json:"sql,omitempty"`
+	Rs    [][]SqlVal `json:"rs,omitempty"` // result set rows for ReadSQL
 }
 
 type Scenario struct {
